@@ -31,11 +31,19 @@ async fn verif_model_header_ex_framing() {
     let mut cases = 0u64;
     for round in 0..rounds {
         let mut rng = XorShift(0x9E3779B97F4A7C15 ^ seed.wrapping_mul(31337).wrapping_add(round + 1));
-        // a request
-        let req = HeaderRequest {
+        // a request; every 8th round one whose wire form is within 2 bytes of the size limit (the limit itself included)
+        let req = if round % 8 == 7 {
+            let want = REQUEST_SIZE_LIMIT - 2 + (round / 8 % 3) as usize;
+            let mut found = None;
+            for hash_len in (want - 16)..=want {
+                let r = HeaderRequest { amount: 7, data: Some(ReqData::Hash((0..hash_len).map(|i| (i % 251) as u8).collect())) };
+                if prost::Message::encode_length_delimited_to_vec(&r).len() == want { found = Some(r); break; }
+            }
+            found.expect("a request of the wanted wire length")
+        } else { HeaderRequest {
             data: match rng.below(3) { 0 => None, 1 => Some(ReqData::Origin(rng.next())), _ => Some(ReqData::Hash((0..rng.below(40)).map(|_| rng.next() as u8).collect())) },
             amount: rng.next() >> rng.below(64),
-        };
+        } };
         let mut wire = Vec::new();
         HeaderCodec.write_request(&proto, &mut futures::io::Cursor::new(&mut wire), req.clone()).await.unwrap();
         cases += 1;
